@@ -226,7 +226,8 @@ def linked_inventory(r):
         sub = r.choice([[], ["g"]])
         files.append({"path": "/".join(base + ["nodes"] + sub + ["n%d.yml" % i]), "content": body("n%d" % i, r.shuffle(cls_names)[: r.range(0, ncls)])})
     # decoys where a textual `..` would land: the link's own parent
-    link = r.choice(["current", "live/current"])
+    # the textual resolution of the `..` must stay inside the scratch root (its name differs from run to run)
+    link = r.choice(["current", "live/current"]) if up == 1 else r.choice(["live/current", "a/b/current"])
     lexical_base = link.split("/")[:-1]
     for _ in range(up - 1):
         lexical_base = lexical_base[:-1]
